@@ -209,22 +209,38 @@ fn payload(rng: &mut Rng, size: usize) -> Vec<u8> {
 }
 
 /// returns a description of the writes; a refused write is not a C09 matter (C08 owns addressing)
-fn random_writes(img: &mut Box<dyn DiskImage>, cfg_typ: &str, geo: &[TrackGeo], rng: &mut Rng, n: usize, out: &mut Out) -> String {
+/// `after_save` = (label, case) when the object has already been serialised: from then on a panic of the real code, or an
+/// object that no longer exposes any geometry, is a failure of C09 ("the object stays usable"), not an addressing matter
+fn random_writes(img: &mut Box<dyn DiskImage>, cfg_typ: &str, geo: &[TrackGeo], rng: &mut Rng, n: usize, out: &mut Out, after_save: Option<(&str, &str)>) -> String {
     let mut desc = String::new();
-    let typ = img.what_am_i().to_string();
+    let unusable = |out: &mut Out, what: &str, detail: &str| {
+        if let Some((label, case)) = after_save {
+            out.oracle(false, "object-usable-after-to_bytes", &format!("c09/{}/object-unusable-after-to_bytes:{}", label, what), &format!("{} {}", case, detail));
+        }
+    };
+    let (typ, cap, heads, tracks) = match guarded(|| (img.what_am_i().to_string(), img.byte_capacity(), img.num_heads(), img.track_count())) {
+        Ok(x) => x,
+        Err(p) => { unusable(out, &format!("panic:{}", site(&p)), &format!("panic={}", p)); return format!("PANIC {}", p); }
+    };
+    let blocky0 = typ == "po" || (typ == "2mg" && geo.is_empty());
+    if !blocky0 && (geo.is_empty() || (typ == "img" && geo[0].secs.is_empty())) {
+        // nothing addressable: before the first save that is the format's business, afterwards the object is broken
+        unusable(out, "no-track-solves", "export_geometry finds no track any more");
+        return "no-geometry".to_string();
+    }
+    if heads == 0 || tracks == 0 || (blocky0 && cap < 512) { return "empty".to_string(); }
     for _ in 0..n {
-        let blocky = typ == "po" || (typ == "2mg" && geo.is_empty());
+        let blocky = blocky0;
         let r: Result<(), String>;
         let what: String;
         if blocky {
-            let nb = img.byte_capacity() / 512;
+            let nb = cap / 512;
             let b = if rng.chance(20) { *rng.pick(&[0, 1, 2, nb - 1]) } else { rng.below(nb) };
             let d = payload(rng, 512);
             what = format!("PO{}:{}", b, d.len());
             r = guarded(|| img.write_block(Block::PO(b), &d).map_err(|e| e.to_string())).unwrap_or_else(|p| Err(format!("PANIC {}", p)));
         } else if typ == "img" {
-            let heads = img.num_heads();
-            let t = rng.below(img.track_count());
+            let t = rng.below(tracks);
             let nsec = geo[0].secs.len();
             let size = geo[0].secs[0].1;
             let s = rng.range(1, nsec);
@@ -249,7 +265,11 @@ fn random_writes(img: &mut Box<dyn DiskImage>, cfg_typ: &str, geo: &[TrackGeo], 
         }
         match r {
             Ok(()) => { out.count(&format!("write-ok:{}", cfg_typ)); desc += &format!("{} ", what); }
-            Err(e) => { out.count(&format!("write-refused:{}", cfg_typ)); desc += &format!("{}=>{} ", what, e); }
+            Err(e) => {
+                out.count(&format!("write-refused:{}", cfg_typ));
+                if e.starts_with("PANIC ") { unusable(out, &format!("panic:{}", site(&e[6..])), &format!("write {} panic={}", what, &e[6..])); }
+                desc += &format!("{}=>{} ", what, e);
+            }
         }
     }
     desc
@@ -637,7 +657,7 @@ fn roundtrip_oracle(out: &mut Out, img: &mut Box<dyn DiskImage>, label: &str, ty
     macro_rules! emit { ($pass:expr, $name:expr, $sig:expr, $case:expr) => { buf.push(($pass, $name.to_string(), $sig.to_string(), $case.to_string())) } }
     // sectors as seen BEFORE the first serialisation: `to_bytes` takes `&mut self` (2MG, TD0 and WOZ2 rewrite parts
     // of the object), the object must stay the same disk afterwards and must serialise identically again
-    let pre = if img.byte_capacity() <= 4_000_000 { guarded(|| { let (_, g) = geometry(img); dump_sectors(img, &g) }).ok() } else { None };
+    let pre = guarded(|| if img.byte_capacity() <= 4_000_000 { let (_, g) = geometry(img); Some(dump_sectors(img, &g)) } else { None }).ok().flatten();
     let b1 = match guarded(|| img.to_bytes()) {
         Ok(b) => b,
         Err(p) => { emit!(false, "to_bytes-no-panic", &sig(&format!("to_bytes-panic:{}", site(&p))), &format!("{} panic={}", case, p)); flush(out, buf, typ, hazards); return (Verdict { ok: false }, Vec::new()); }
@@ -834,7 +854,7 @@ fn case_created(ctx: &mut Ctx, idx: usize, cfg: &Cfg, rng: &mut Rng, heavy: bool
     };
     let (_, geo) = geometry(&mut img);
     let nw = if heavy { rng.range(0, 12) } else { rng.range(0, 4) };
-    let wdesc = random_writes(&mut img, cfg.typ, &geo, rng, nw, out);
+    let wdesc = random_writes(&mut img, cfg.typ, &geo, rng, nw, out, None);
     let ne = rng.below(4);
     let elog = random_edits(&mut img, cfg, rng, ne, out, "A", idx);
     let case = format!("A idx={} cfg={} vol={} writes=[{}] edits=[{}]", idx, label, vol, wdesc.trim(), elog.desc.trim());
@@ -855,13 +875,18 @@ fn case_created(ctx: &mut Ctx, idx: usize, cfg: &Cfg, rng: &mut Rng, heavy: bool
             if cfg.typ == "woz2" && cfg.kind_name == "A2_DOS32" { out.q(&format!("c09 woz2save {}", hx(&b1)), &format!("1536 1536 {} {} stable reparse-ok", b1.len(), le32(&b1[8..12]))); }
         }
         "imd" => if b1.len() < 120_000 || idx % 16 == 3 { let _ = guarded(|| tie_imd(out, &mut img, &b1)); },
-        "td0" => { let notes = lookup(&img.get_metadata(None), &["td0".to_string(), "comment".to_string(), "notes".to_string()]); tie_td0(out, &b1, rng, b1.len() < 60_000, notes) },
+        "td0" => { let notes = guarded(|| img.get_metadata(None)).ok().and_then(|m| lookup(&m, &["td0".to_string(), "comment".to_string(), "notes".to_string()])); tie_td0(out, &b1, rng, b1.len() < 60_000, notes) },
         "2mg" => tie_2mg(out, &b1, rng),
         _ => {}
     }
     // the SAME object keeps working after it has been serialised: write again, run the oracle again
     if v.ok && !b1.is_empty() && b1.len() < 1_200_000 && hazards.is_empty() {
-        let w2 = random_writes(&mut img, cfg.typ, &geo, rng, 2, out);
+        // geometry as the object shows it NOW (after to_bytes), under guard
+        let geo2 = match guarded(|| geometry(&mut img).1) {
+            Ok(g) => g,
+            Err(p) => { out.oracle(false, "object-usable-after-to_bytes", &format!("c09/{}/object-unusable-after-to_bytes:panic:{}", label, site(&p)), &format!("{} panic={}", case, p)); return; }
+        };
+        let w2 = random_writes(&mut img, cfg.typ, &geo2, rng, 2, out, Some((&label, &case)));
         let (v2, _) = roundtrip_oracle(out, &mut img, &label, cfg.typ, records_kind(cfg), &hints[..1], &format!("{} then writes=[{}]", case, w2.trim()), &[]);
         let _ = v2;
     }
@@ -1094,10 +1119,10 @@ fn case_item27(ctx: &mut Ctx, idx: usize, rng: &mut Rng) {
                 roundtrip_oracle(out, &mut j, label, "woz2", true, &[Some("woz"), None], &case, &[]);
                 match guarded(|| geometry(&mut j).1) {
                     Ok(geo) => {
-                        let wdesc = random_writes(&mut j, "woz2", &geo, rng, 3, out);
+                        let wdesc = random_writes(&mut j, "woz2", &geo, rng, 3, out, Some((label, &case)));
                         roundtrip_oracle(out, &mut j, label, "woz2", true, &[Some("woz")], &format!("{} then writes=[{}]", case, wdesc.trim()), &[]);
                     }
-                    Err(p) => out.oracle(false, "object-usable-after-to_bytes", &format!("c09/{}/object-unusable-after-to_bytes:{}", label, site(&p)), &format!("{} panic={}", case, p)),
+                    Err(p) => out.oracle(false, "object-usable-after-to_bytes", &format!("c09/{}/object-unusable-after-to_bytes:panic:{}", label, site(&p)), &format!("{} panic={}", case, p)),
                 }
             }
         }
@@ -1131,7 +1156,7 @@ fn case_directed(ctx: &mut Ctx, idx: usize, rng: &mut Rng) {
     let label = format!("{}/{}", cfg.typ, cfg.kind_name);
     let mut img = match guarded(|| build(&cfg, 254)) { Ok(Ok(i)) => i, _ => return };
     let (_, geo) = geometry(&mut img);
-    let wdesc = random_writes(&mut img, cfg.typ, &geo, rng, 3, out);
+    let wdesc = random_writes(&mut img, cfg.typ, &geo, rng, 3, out, None);
     let jv = json::JsonValue::String(val.clone());
     let sig = format!("c09/{}/roundtrip-after:{}", cfg.typ, class);
     let case = format!("E idx={} cfg={} writes=[{}] put /{}={:?}", idx, label, wdesc.trim(), path.join("/"), val);
@@ -1152,6 +1177,12 @@ fn case_directed(ctx: &mut Ctx, idx: usize, rng: &mut Rng) {
 
 // ------------------------------------------------------------------------------------------------
 
+/// last line of defence: a panic that escaped the per-call guards of a case (real code reached through an unguarded
+/// call, or a slip of the harness itself) becomes a failing verdict with a replayable index instead of killing the run
+fn escaped(ctx: &mut Ctx, stream: &str, idx: usize, p: &str) {
+    ctx.out.oracle(false, "case-completes", &format!("c09/case-panic:{}", site(p)), &format!("{} idx={} panic={}", stream, idx, p));
+}
+
 pub fn run(ctx: &mut Ctx) {
     let mut rng = Rng::new(ctx.seed);
     let cfgs = configs();
@@ -1164,7 +1195,7 @@ pub fn run(ctx: &mut Ctx) {
             let mut r = rng.fork(idx as u64);
             if !ctx.out.wants(idx) { continue; }
             // the 32 MB configurations are exercised in every round but only lightly
-            case_created(ctx, idx, cfg, &mut r, thorough || cfg.kind_name != "A2_HD_MAX");
+            if let Err(p) = guarded(|| case_created(ctx, idx, cfg, &mut r, thorough || cfg.kind_name != "A2_HD_MAX")) { escaped(ctx, "A", idx, &p); }
         }
     }
     let nb = ctx.n(400, 6000);
@@ -1172,25 +1203,25 @@ pub fn run(ctx: &mut Ctx) {
         let idx = 10000 + i;
         let mut r = rng.fork(idx as u64);
         if !ctx.out.wants(idx) { continue; }
-        case_codec(ctx, idx, &mut r);
+        if let Err(p) = guarded(|| case_codec(ctx, idx, &mut r)) { escaped(ctx, "B", idx, &p); }
     }
     let nc = ctx.n(8, 80);
     for i in 0..nc {
         let idx = 20000 + i;
         let mut r = rng.fork(idx as u64);
         if !ctx.out.wants(idx) { continue; }
-        case_loaded(ctx, idx, &mut r);
+        if let Err(p) = guarded(|| case_loaded(ctx, idx, &mut r)) { escaped(ctx, "C", idx, &p); }
     }
     for i in 0..ctx.n(11, 66) {
         let idx = 40000 + i;
         let mut r = rng.fork(idx as u64);
         if !ctx.out.wants(idx) { continue; }
-        case_directed(ctx, idx, &mut r);
+        if let Err(p) = guarded(|| case_directed(ctx, idx, &mut r)) { escaped(ctx, "E", idx, &p); }
     }
     for i in 0..ctx.n(2, 9) {
         let idx = 30000 + i;
         let mut r = rng.fork(idx as u64);
         if !ctx.out.wants(idx) { continue; }
-        case_item27(ctx, idx, &mut r);
+        if let Err(p) = guarded(|| case_item27(ctx, idx, &mut r)) { escaped(ctx, "D", idx, &p); }
     }
 }
